@@ -96,6 +96,12 @@ class Setting:
         return sym.Fork([(ok, sym.Adt("Option", "Some", [w]), ("mask", name, "known")),
                          (z3.Not(ok), sym.Adt("Option", "None", []), ("mask", name, "unknown"))])
 
+    def m_from_bits_truncate(self, engine, st, fr, callee, args, ops):
+        """bitflags contract: the declared bits of the argument, undeclared ones dropped (`_retain`: kept)"""
+        m = re.search(r"<impl (?:spirv::)?(\w+)>::from_bits_(truncate|retain)$", callee)
+        w = args[0]
+        return w if m.group(2) == "retain" else z3.simplify(w & z3.BitVecVal(self.maskall[m.group(1)], 32))
+
     def m_contains(self, engine, st, fr, callee, args, ops):
         a = sym._deref_arg(engine, st, args[0])
         b = args[1]
@@ -199,6 +205,7 @@ class Setting:
             (r"^Decoder::<'_>::\w+$", self.m_typed_decode),
             (r"^(spirv::)?\w+::from_u32$", self.m_from_u32),
             (r"<impl (spirv::)?\w+>::from_bits$", self.m_from_bits),
+            (r"<impl (spirv::)?\w+>::from_bits_(truncate|retain)$", self.m_from_bits_truncate),
             (r"<impl (spirv::)?\w+>::contains$", self.m_contains),
             (r"^Parser::<'_, '_>::\w+$", self.m_parser_method),
             (r"^Vec::<.*>::append$", self.m_vec_append),
